@@ -12,6 +12,8 @@ import StarsimModel.Lemmas.Pars
 import StarsimModel.Lemmas.ParsDeep
 import StarsimModel.Lemmas.ParsRefs
 import StarsimModel.Generated.ParsRefs
+import StarsimModel.Model.ParsSim
+import StarsimModel.Generated.ParsSimLevel
 
 namespace StarsimModel.C17
 open StarsimModel.Pars
@@ -754,5 +756,69 @@ example : useTwice genMakeDistMutates [("type", 7), ("loc", 8)] =
     (.made ⟨7, [("loc", 8)]⟩, .made ⟨7, [("loc", 8)]⟩, [("type", 7), ("loc", 8)]) := by decide
 
 end Refs
+
+/-! ### Round 4 — sim-level shortcut parameters and the settings derived from them
+
+`SimPars.validate_demographics` is regenerated as an ordered step list (Generated/ParsSimLevel.lean).  The theorems say that
+the shortcut spellings (`birth_rate=` / `death_rate=` at the sim level, `demographics=True`) validate to exactly what the
+explicit-module spelling validates to — modules AND the derived `use_aging` — so deriving a setting from a partially
+expanded configuration (or expanding a shortcut after the setting was derived) stops them from elaborating. -/
+
+section SimLevel
+open StarsimModel.ParsSim
+
+/-- `validate_demographics` as regenerated -/
+def genValidate (c : Cfg) : Except Err Out := validateDemog Gen.demogSteps c
+
+theorem C17_sim_level_structure : Gen.demogBeforeConvert = true := by decide
+
+/-- **The derived setting is derived from the FINAL configuration**: an explicit `use_aging` is honoured; the default is
+    "agents age iff the validated sim has demographics modules" — for every way the modules got there. -/
+theorem C17_use_aging_derived (c : Cfg) (o : Out) (h : genValidate c = .ok o) :
+    (∀ b, c.aging = some b → o.aging = some b) ∧ (c.aging = none → o.aging = some (!o.mods.isEmpty)) := by
+  obtain ⟨dm, b, d, a⟩ := c
+  cases dm <;> cases b <;> cases d <;> cases a <;>
+    simp [genValidate, validateDemog, Gen.demogSteps, runSteps, step, DIn.add, DIn.isEmptyNdict, DIn.truthy, DIn.list] at h <;>
+    (try subst h) <;> simp
+
+/-- **Rate shortcuts ≡ explicit modules**: `Sim(birth_rate=b, death_rate=d, use_aging=a)` validates to exactly what
+    `Sim(demographics=[Births(birth_rate=b), Deaths(death_rate=d)], use_aging=a)` validates to (modules, order, derived
+    `use_aging`), for every b, d (either may be absent) and every a (including the default). -/
+theorem C17_rate_shortcut_equiv (b d : Option Nat) (a : Option Bool) (h : b.isSome = true ∨ d.isSome = true) :
+    genValidate ⟨.empty, b, d, a⟩ = genValidate ⟨.mods (explicitMods b d), none, none, a⟩ := by
+  cases b <;> cases d <;> cases a <;>
+    simp_all [genValidate, validateDemog, Gen.demogSteps, runSteps, step, DIn.add, DIn.isEmptyNdict, DIn.truthy, DIn.list, explicitMods]
+
+/-- **`demographics=True` ≡ `[Births(), Deaths()]`**, with any `use_aging`. -/
+theorem C17_true_shortcut_equiv (a : Option Bool) :
+    genValidate ⟨.flagTrue, none, none, a⟩ = genValidate ⟨.mods [.births none, .deaths none], none, none, a⟩ := by
+  cases a <;> simp [genValidate, validateDemog, Gen.demogSteps, runSteps, step, DIn.isEmptyNdict, DIn.truthy, DIn.list]
+
+/-- **A rate shortcut next to explicit demographics is rejected**, never merged or dropped: any list (even an empty one) and
+    `demographics=True`. -/
+theorem C17_rate_with_modules_rejected (l : List DMod) (b d : Option Nat) (a : Option Bool)
+    (h : b.isSome = true ∨ d.isSome = true) :
+    genValidate ⟨.mods l, b, d, a⟩ = .error .value ∧ genValidate ⟨.flagTrue, b, d, a⟩ = .error .value := by
+  cases b <;> cases d <;> cases a <;>
+    simp_all [genValidate, validateDemog, Gen.demogSteps, runSteps, step, DIn.add, DIn.isEmptyNdict, DIn.truthy, DIn.list]
+
+/-- every supplied rate is carried by exactly one module of the validated sim -/
+theorem C17_rate_shortcut_applied (b d : Option Nat) (a : Option Bool) (o : Out)
+    (h : genValidate ⟨.empty, b, d, a⟩ = .ok o) : o.mods = explicitMods b d := by
+  cases b <;> cases d <;> cases a <;>
+    simp [genValidate, validateDemog, Gen.demogSteps, runSteps, step, DIn.add, DIn.isEmptyNdict, DIn.truthy, DIn.list, explicitMods] at h ⊢ <;>
+    (subst h; rfl)
+
+/-- Non-vacuity, and why the ORDER is what the theorems pin: with `use_aging` derived before the shortcuts are expanded the
+    two spellings of "births at rate 25" validate differently (agents of the shortcut spelling never age). -/
+example :
+    genValidate ⟨.empty, some 25, some 12, none⟩ = .ok ⟨[.births (some 25), .deaths (some 12)], some true⟩ ∧
+    genValidate ⟨.empty, none, none, none⟩ = .ok ⟨[], some false⟩ ∧
+    validateDemog [.trueShortcut, .deriveAging, .computeValid, .birthShortcut, .deathShortcut] ⟨.empty, some 25, none, none⟩
+      = .ok ⟨[.births (some 25)], some false⟩ ∧
+    validateDemog [.trueShortcut, .deriveAging, .computeValid, .birthShortcut, .deathShortcut] ⟨.mods [.births (some 25)], none, none, none⟩
+      = .ok ⟨[.births (some 25)], some true⟩ := by decide
+
+end SimLevel
 
 end StarsimModel.C17
